@@ -210,16 +210,22 @@ class S16(explore.Spec):
   expanded."""
 
   def judge(self, g, env, hist, op, err):
-    if err is not None:
+    if err is not None and not isinstance(err, gfapy.Error):
       return []
+    # a refused operation (gfapy.Error) is judged too: the caller may carry
+    # on, and the topology answers must still agree with the document
     if observe.ill_typed(g):
       return [("skip", "ill-typed reference")]
     if invariants.placeholders(g):
       return []
     txt = str(g)
     doc = R.parse(txt, self.version)
-    if R.undefined_segments(doc):
-      return []
+    und = R.undefined_segments(doc)
+    if und:
+      # no placeholder is left in the Gfa, yet a written record mentions a
+      # segment that is not defined: a removed segment is still mentioned
+      return [("dangling-mention", "records mention {} which the Gfa does not "
+               "hold (not even as placeholder)".format(sorted(und)))]
     _JUDGED[0] += 1
     return judge_graph(g, doc)
 
@@ -240,7 +246,8 @@ H1 = [T(["S", "A", "*"]), T(["S", "B", "*"]), T(["S", "C", "*"]),
       T(["L", "B", "+", "C", "-", "*"]), T(["L", "C", "+", "A", "+", "*"]),
       T(["L", "C", "-", "C", "+", "*"]), T(["L", "B", "+", "B", "+", "*"]),
       T(["C", "A", "+", "C", "+", "0", "*"]),
-      T(["C", "B", "-", "A", "+", "0", "*"])]
+      T(["C", "B", "-", "A", "+", "0", "*"]),
+      T(["P", "p", "A+,B+", "1M"]), T(["L", "A", "-", "p", "+", "*"])]
 H2 = [T(["S", "a", "4", "*"]), T(["S", "b", "4", "*"]), T(["S", "c", "4", "*"]),
       T(["E", "e1", "a+", "b+", "2", "4$", "0", "2", "*"]),
       T(["E", "*", "a+", "b+", "3", "4$", "0", "1", "*"]),
@@ -248,7 +255,8 @@ H2 = [T(["S", "a", "4", "*"]), T(["S", "b", "4", "*"]), T(["S", "c", "4", "*"]),
       T(["E", "e3", "c+", "c-", "4$", "4$", "4$", "4$", "*"]),
       T(["E", "e4", "a+", "c+", "0", "4$", "1", "3", "*"]),
       T(["E", "e5", "a+", "b-", "1", "2", "1", "2", "*"]),
-      T(["E", "e6", "c-", "a-", "0", "2", "2", "4$", "*"])]
+      T(["E", "e6", "c-", "a-", "0", "2", "2", "4$", "*"]),
+      T(["O", "o", "a+ b+"]), T(["E", "*", "a-", "o+", "0", "1", "0", "1", "*"])]
 
 S16(name="c16.g1", universe=universe.G1, version="gfa1",
     rename_targets=("Z", "B"))
